@@ -20,7 +20,7 @@ use redis_sim::replication::{GossipMessage, ReplicaId, ReplicatedValue, Replicat
 use redis_sim::streaming::{
     CheckpointInfo, CheckpointReader, CheckpointWriter, Compression, InMemoryObjectStore,
     InMemoryWalStore, Manifest, ManifestManager, ObjectStore, RecoveryManager, SegmentInfo,
-    SegmentReader, SegmentWriter, WalEntry, WalRotator, WalStore,
+    SegmentReader, SegmentWriter, WalEntry, WalRotator,
 };
 use serde::{Deserialize, Serialize};
 use serde_json::{json, Value as J};
